@@ -22,7 +22,7 @@ type Access struct {
 // fieldAccesses returns every access to st.field in package rpc.
 func (p *Prog) fieldAccesses(st, field string) []Access {
 	var out []Access
-	for _, fn := range p.Fns {
+	for _, fn := range p.AllFns {
 		eachInstrLocal(fn, func(in ssa.Instruction) {
 			switch x := in.(type) {
 			case *ssa.FieldAddr:
@@ -210,6 +210,25 @@ func (p *Prog) origins(v ssa.Value) []ssa.Value {
 			walk(x.X, d+1)
 		case *ssa.ChangeInterface:
 			walk(x.X, d+1)
+		case *ssa.Parameter:
+			// the parameter of a plain helper comes from the arguments of its calls
+			if h := x.Parent(); p.isPlainHelper(h) && len(p.callers[h]) > 0 {
+				k := -1
+				for j, q := range h.Params {
+					if q == x {
+						k = j
+					}
+				}
+				if k >= 0 {
+					for _, cs := range p.callers[h] {
+						if args := cs.Common().Args; k < len(args) {
+							walk(args[k], d+1)
+						}
+					}
+					return
+				}
+			}
+			out = append(out, v)
 		case *ssa.UnOp:
 			if x.Op == token.MUL {
 				if cell := p.localCell(x.X); cell != nil {
@@ -270,7 +289,7 @@ func (p *Prog) localCell(addr ssa.Value) *ssa.Alloc {
 func (p *Prog) storesToCell(cell *ssa.Alloc) []ssa.Value {
 	var out []ssa.Value
 	top := topParent(cell.Parent())
-	for _, fn := range withClosures(top) {
+	for _, fn := range withClosuresLocal(top) {
 		eachInstrLocal(fn, func(in ssa.Instruction) {
 			if s, ok := in.(*ssa.Store); ok {
 				if s.Addr == ssa.Value(cell) || (isFreeVarOf(s.Addr, cell, p)) {
@@ -386,7 +405,7 @@ func callsIn(fn *ssa.Function, names ...string) []ssa.CallInstruction {
 // fnsCalling returns the package functions containing a call to one of names.
 func (p *Prog) fnsCalling(names ...string) []*ssa.Function {
 	var out []*ssa.Function
-	for _, fn := range p.Fns {
+	for _, fn := range p.AllFns {
 		if len(callsIn(fn, names...)) > 0 {
 			out = append(out, fn)
 		}
